@@ -62,6 +62,20 @@ def search(rep, rel, q, pi, hi):
     rep.need("R16", len(size_loops), 1, f"size loop in {q}")
     sl = size_loops[0]
     k = norm(sl.target)
+    # per-search state kept on the instance (self._last_size ..): what the size loop both reads and writes must be reset before the loop on every
+    # path, otherwise the early exit of THIS search is decided by what an EARLIER search on the same matcher object found
+    from ..cfg import CFG, ENTRY
+    cfg_ = CFG(fi.node)
+    written = {norm(t_) for n_ in walk_local(sl) if isinstance(n_, (ast.Assign, ast.AugAssign)) for t_ in (n_.targets if isinstance(n_, ast.Assign) else [n_.target])
+               if isinstance(t_, ast.Attribute) and norm(t_.value) == "self"}
+    read_in_tests = {norm(a_) for n_ in walk_local(sl) if isinstance(n_, (ast.If, ast.While)) for a_ in ast.walk(n_.test)
+                     if isinstance(a_, ast.Attribute) and norm(a_.value) == "self" and isinstance(a_.ctx, ast.Load)}
+    for attr_ in sorted(written & read_in_tests):
+        inits = [st_ for st_ in cfg_.stmts() if isinstance(st_, ast.Assign) and any(norm(t_) == attr_ for t_ in st_.targets) and not any(x is st_ for x in walk_local(sl))]
+        ok_init = bool(inits) and cfg_.all_paths_pass(ENTRY, sl, inits)
+        rep.ob("O12.2", "R16", fi, ok_init, f"{attr_} = <initial value> before the size loop" if ok_init else f"{attr_} read in the size loop",
+               f"`{attr_}` steers the early exit of the size loop and is written by it: it is re-initialised at the start of every search "
+               "(a value left by an earlier search on the same object would end this search before any level is tried)", node=sl)
     it = origin(defs, sl.iter)
     m = pmatch("range($$mk, 0, -1)", it) or pmatch("reversed(range(1, $$mk + 1))", it)
     rep.ob("O12.2", "R16", fi, m is not None, it, "candidate sizes descend from max_k to 1 (largest common subgraphs are found first)", node=sl)
